@@ -468,7 +468,91 @@ def mime_server_grad(case):
   return {'evals': evals, 'nontrivial': True, 'outcome': [loss, reg, sizes], 'keys': [[loss, reg, sizes, g] for g in geoms]}
 
 
-SUBS = {'reg_sequence': reg_sequence, 'mime_server_grad': mime_server_grad, 'grad_masks': grad_masks, 'avg_loss': avg_loss, 'mime_grads': mime_grads, 'agnostic_domain': agnostic_domain,
+def kmeans_centers(case):
+  """ModelKMeansInitializer / kmeans_init: every further centre is the trained parameters of a client whose best average
+  loss (over the centres so far, from padded batches, regulariser counted once per evaluation) is maximal - for every
+  evaluation geometry."""
+  import fedjax
+  import jax
+  import jax.numpy as jnp
+  from fedjax.algorithms import hyp_cluster as hc
+  from mc import algos, systems
+  lam, k, sizes, route = case.get('lam'), case['clusters'], case['sizes'], case.get('route', 'model')
+  lr = 0.125
+  key = ('kmeans', lam)
+  if key not in _CACHE:
+    model = fedjax.Model(init=lambda rng: algos.jparams(), apply_for_train=lambda p, b, r=None: b['x'] @ p['w'] + p['b'],
+                         apply_for_eval=lambda p, b: b['x'] @ p['w'] + p['b'], train_loss=lambda b, o: (o - b['y']) ** 2,
+                         eval_metrics={})
+    reg = systems.half_l2(lam) if lam else None
+    _CACHE[key] = (hc.ModelKMeansInitializer(model, fedjax.optimizers.sgd(lr), reg),
+                   hc.ClientParamsTrainer(fedjax.model_grad(model, reg), fedjax.optimizers.sgd(lr)),
+                   fedjax.AverageLossEvaluator(fedjax.model_per_example_loss(model), reg))
+  initializer, trainer, evaluator = _CACHE[key]
+  regv = lambda p: 0.5 * lam * float(sum(np.sum(np.asarray(v, np.float64) ** 2) for v in p.values())) if lam else 0.0
+  # heterogeneous clients (label offsets): their trained models, hence the regulariser values of the candidate centres, differ a lot
+  offs = [-4.0, 0.0, 3.0, 6.0, -1.5, 2.0]
+
+  def data_fn(n, idx, seed_, domains):
+    ex = algos.client_data(n, idx, seed_, domains)
+    ex['y'] = (ex['y'] + np.float32(offs[idx])).astype(np.float32)
+    return ex
+  pop = algos.population(sizes, case.get('seed', 0), data_fn=data_fn)
+  thp = systems._hp(2, case.get('epochs', 1), None, 0)
+  p0 = algos.nparams(algos.P0)
+  ids = [c[0] for c in pop]
+  evals, outs, keys = 0, set(), []
+  reg_decides = 0
+
+  def avg(p, ex):
+    r = ex['x'].astype(np.float64) @ p['w'] + p['b'] - ex['y'].astype(np.float64)
+    return float(np.mean(r * r)) + regv(p)
+  for rseed in case['rngs']:
+    rng = jax.random.PRNGKey(rseed)
+    _, center_rng = jax.random.split(rng)
+    first = int(jax.random.choice(center_rng, len(pop)))
+    ref_params = {}
+    for cid, ds, crng in pop:
+      ck = jax.random.split(crng, k)
+      delta, _ = algos.ref_client_delta(p0, list(ds.shuffle_repeat_batch(thp)), ck[0], algos.RefSGD(lr), 'plain', l2=lam)
+      ref_params[cid] = {kk: p0[kk] - delta[kk] for kk in p0}
+    for geom in _geoms(case):
+      nc = dict(case, rngs=[rseed], geoms=[list(geom)])
+      ehp = systems._php(*geom)
+      if route == 'model':
+        centers = initializer.cluster_params(k, rng, pop, thp, ehp)
+      else:
+        centers = hc.kmeans_init(k, algos.jparams(), pop, trainer, thp, evaluator, ehp, center_rng)
+      require(len(centers) == k, 'number of cluster centres', k, len(centers), case=nc)
+      best = {cid: np.inf for cid in ids}
+      chosen = []
+      for i, c in enumerate(centers):
+        cn = algos.nparams({kk: np.asarray(v).tolist() for kk, v in c.items()})
+        dist = {cid: max(float(np.max(np.abs(cn[kk] - ref_params[cid][kk]))) for kk in cn) for cid in ids}
+        who = min(dist, key=dist.get)
+        require(dist[who] <= 1e-4, 'centre %d is not the trained parameters of any client' % i, None, dist, case=nc)
+        if i == 0:
+          require(who == sorted(ids)[first] or dist[sorted(ids)[first]] <= 1e-4, 'the first centre is not the client drawn with the given key',
+                  repr(sorted(ids)[first]), repr(who), case=nc)
+        else:
+          mx = max(best.values())
+          require(best[who] >= mx - 1e-4 * (1 + abs(mx)), 'centre %d is the model of client %r whose best average loss over the '
+                  'centres so far (regulariser counted once) is not maximal' % (i, who),
+                  {repr(c_): round(v, 6) for c_, v in best.items()}, repr(who), case=nc)
+        chosen.append(ids.index(who))
+        for cid, ds, _ in pop:
+          best[cid] = min(best[cid], avg(ref_params[who], ds.raw_examples))
+        if lam and i + 1 < len(centers):
+          # would the next choice differ if the regulariser of the centres were left out of the clients' average losses?
+          nb = {cid: min(avg(ref_params[ids[j]], ds.raw_examples) - regv(ref_params[ids[j]]) for j in chosen) for cid, ds, _ in pop}
+          reg_decides += max(nb, key=nb.get) != max(best, key=best.get)
+      outs.add(core.digest(chosen))
+      evals += 1
+      keys.append(['kmeans', lam, k, sizes, rseed, list(geom), route])
+  return {'evals': evals, 'nontrivial': True, 'outcome': sorted(outs), 'keys': keys, 'stats': {'choices_decided_by_the_regulariser': reg_decides}}
+
+
+SUBS = {'kmeans_centers': kmeans_centers, 'reg_sequence': reg_sequence, 'mime_server_grad': mime_server_grad, 'grad_masks': grad_masks, 'avg_loss': avg_loss, 'mime_grads': mime_grads, 'agnostic_domain': agnostic_domain,
         'hyp_losses': hyp_losses}
 TIMEOUTS = {k: 1200 for k in SUBS}
 
@@ -508,6 +592,10 @@ def plan(ctx):
                                for t in tuples for nd in (2, 3)] +
            [{'loss': 'sq', 'sizes': t, 'num_domains': 2, 'seed': s, 'reg': r} for r in ('l2', 'l2c') for t in tuples] +
            [{'loss': 'sq', 'sizes': t, 'num_domains': 2, 'seed': s, 'backend': be} for be in bes for t in ptuples], chunk=2)
+  ctx.pmap('kmeans_centers', [{'lam': lam, 'clusters': k, 'sizes': t, 'epochs': ep, 'rngs': list(range(8 if th else 5)), 'seed': s, 'route': rt,
+                              'geoms': [list(g) for g in (GEOMS if th else [(1, 1), (2, 2), (4, 3), (6, 1)])]}
+                             for lam, t, ep in ((None, [3, 5, 2, 4, 1], 1), (1.0, [4, 4, 4, 4, 4, 4], 6), (0.5, [3, 5, 2, 4, 1], 6), (1.0, [2, 2, 6, 1], 3))
+                             for k in (3, 4) for rt in ('model', 'kmeans_init') if th or rt == 'model' or (k == 4 and lam == 1.0)], chunk=1)
   ctx.pmap('hyp_losses', [{'loss': l, 'reg': r, 'sizes': t, 'seed': s} for l in ('sq', 'abs') for r in regs
                           for t in ([[3], [2, 0, 3], [5, 1]] if not th else tuples)] +
            [{'loss': 'sq', 'reg': r, 'sizes': t, 'seed': s, 'backend': be} for be in bes for r in ('none', 'l2c')
